@@ -105,7 +105,7 @@ func (ca *Cache) Update(key string, value string) error {
 	ca.Cache[checkFrame][key] = ""
 	ca.CacheUseSize -= l
 	sz := ca.checkCapacity(value)
-	if sz == 0 {
+	if sz == 0 && len(value) > 0 {
 		baseUseSize := ca.CacheUseSize
 		ca.Cache[checkFrame][key] = r
 		ca.CacheUseSize += l
